@@ -51,8 +51,16 @@ def catalog(tier="quick"):
     # episodes that end for two reasons at once: puzzles one move away from the goal with a time limit of one step (a random
     # move solves them ON the limit step now and then; the terminal key must still be a fresh one every time)
     c["RubiksCube.S1T1"] = lambda: _cube_s1(1)
+    # a user-written environment whose bounded specs have one range per row (bounds broadcast along the trailing axis)
+    c["Probe.RowBounded"] = lambda: _row_bounded()
     c["SlidingTilePuzzle.K1T1"] = lambda: _sliding_k1(1)
     return c
+
+
+def _row_bounded():
+    from harness.lib.probe_env import RowBoundedEnv
+
+    return RowBoundedEnv(time_limit=4)
 
 
 def _cube_s1(tl):
